@@ -7,7 +7,7 @@ exit status, number of VIOLATION lines, first line, what the first replay file s
 work/seeded_par.json."""
 import json, os, subprocess, sys, glob, time, shutil, threading
 V = os.path.dirname(os.path.dirname(os.path.abspath(__file__)))
-K, only = 4, None
+K, only, seed, tag = 4, None, None, ""
 args = sys.argv[1:]
 while args:
     a = args.pop(0)
@@ -15,16 +15,21 @@ while args:
         K = int(args.pop(0))
     elif a == "--only":
         only = set(args.pop(0).split(","))
-ROOT = "/tmp/verif-par"
-seeds = [os.path.basename(d) for d in sorted(glob.glob(os.path.join(V, "seeded", "*")))]
+    elif a == "--seed":
+        seed = args.pop(0)
+        tag = "_seed" + seed
+ROOT = "/tmp/verif-par" + tag
+seeds = [os.path.basename(d) for d in sorted(glob.glob(os.path.join(V, "seeded", "*"))) if os.path.isdir(d)]
 if only:
     seeds = [s for s in seeds if s in only]
 # longest first would be better; round-robin is good enough
 shards = [seeds[i::K] for i in range(K)]
 lock = threading.Lock()
 res = {}
-log = open(os.path.join(V, "work", "seeded_par.log"), "w")
+log = open(os.path.join(V, "work", "seeded_par%s.log" % tag), "w")
 env0 = dict(os.environ, GOFLAGS="-mod=mod", GOPROXY="off", GOSUMDB="off", GOTOOLCHAIN="local")
+if seed:
+    env0["VERIF_SEED"] = seed
 
 
 def sh(cmd, **kw):
@@ -79,7 +84,7 @@ for t in ts:
     t.start()
 for t in ts:
     t.join()
-json.dump(res, open(os.path.join(V, "work", "seeded_par.json"), "w"), indent=1)
+json.dump(res, open(os.path.join(V, "work", "seeded_par%s.json" % tag), "w"), indent=1)
 shutil.rmtree(ROOT, ignore_errors=True)
 miss = [s for s in seeds if s not in res or any(x["exit"] == 0 for x in res[s].values()) and not any(x["exit"] == 1 for x in res[s].values())]
 noin = [s for s in seeds if s in res and all("no-failing-input-found" in " ".join(x["first"]) for x in res[s].values() if x["exit"] == 1) and any(x["exit"] == 1 for x in res[s].values())]
